@@ -1,7 +1,22 @@
 import PestModel.Model.Reader
+import PestModel.Model.ReaderFull
+import PestModel.Model.GrammarDriver
 import PestModel.Model.Proto
-/-! Driver mode `read`: `Q <hex body>` → what the reader makes of `a = { "<body>" }`;
-`Y …` → "same" (the round trip is judged by the oracle on the implementation). -/
+/-! Driver mode `read` (one answer line per input line; `<hex …>` = lower/upper-case hex of the UTF-8
+bytes, `-` for the empty text):
+
+* `Q <hex body>`   → what the reader makes of `a = { "<body>" }`: `str <hex>` | `reject` | `other`;
+* `Y …`            → `same` (the round trip is judged by the oracle on the implementation);
+* `R <hex text>`   → the WHOLE reader (`parse(Rule::grammar_rules, text)` then `consume_rules`, i.e.
+                     `ReaderFull.readGrammar`) of the build WITHOUT `grammar-extras`:
+                     `rules <rules>` (the s-expression syntax of `GrammarDriver.showRules`) | `reject`;
+* `RX <hex text>`  → the same for the build WITH `grammar-extras`;
+* `R 0 <hex text>` = `R <hex text>`, `R 1 <hex text>` = `RX <hex text>` (the flag as a leading word).
+
+`reject` stands for both a parse error and an `Err(…)` of `consume_rules` (including the findings of
+`validate_ast`); the model has no `panic` answer (no `unwrap` of the reader can fire on pairs produced
+by the meta-grammar). `stuck` = the reference denotation ran out of fuel on the text (never observed);
+`bad-op` = malformed line. -/
 namespace PestModel.ReaderDriver
 open PestModel.Reader PestModel.Proto PestModel.Ref PestModel.Views
 
@@ -28,9 +43,22 @@ def runQ (body : List Char) : String :=
   | .fail => "reject"
   | _ => "stuck"
 
+def runR (extras : Bool) (h : String) : String :=
+  match hexOrDash h with
+  | some t =>
+    match PestModel.ReaderFull.readGrammarOutcome extras t.toList with
+    | some (some rs) => "rules " ++ PestModel.GrammarDriver.showRules rs
+    | some none => "reject"
+    | none => "stuck"
+  | none => "bad-op"
+
 def runLine (line : String) : String :=
   match words line with
   | "Y" :: _ => "same"
+  | ["R", h] => runR false h
+  | ["RX", h] => runR true h
+  | ["R", "0", h] => runR false h
+  | ["R", "1", h] => runR true h
   | ["Q", h] => match hexOrDash h with | some b => runQ b.toList | none => "bad-op"
   | _ => "bad-op"
 
